@@ -253,6 +253,8 @@ func (x *Explorer) fieldTags(base types.Type, idx int) Tag {
 		return TSchemaFields
 	case n == a.Schema && f == a.SchObject:
 		return TWitness
+	case n == a.Search && f == a.SearchFields:
+		return TSearchFields
 	}
 	return 0
 }
